@@ -240,7 +240,11 @@ def numba_newton_raphson(
                 iterates[2],
             )
 
-        if (absolute_difference < atol) & (relative_difference < rtol):
+        # An Aitken extrapolation can produce a tiny step far from the root: like in the
+        # fixed point iteration above, only a regular step may decide convergence.
+        if (
+            (absolute_difference < atol) & (relative_difference < rtol)
+        ) and not aitken_step:
             break
 
     else:
